@@ -48,7 +48,7 @@ def gen(rng, tier):
                 except (iu.Refused, UnicodeEncodeError):
                     continue
                 cases.append({'cfg': cfg_obj, 'codec': codec, 'hex': False, 'bytes': b.hex(), 'mut': 'valid-long'})
-    nb = 70 if tier == 'quick' else 1200
+    nb = 140 if tier == 'quick' else 2000
     for i in range(nb):
         codec = ['latin_1', 'cp500', 'ascii', 'cp037', 'cp1252', 'cp875'][i % 6]
         hexbm = i % 4 == 3
